@@ -577,12 +577,12 @@ def c16(tier, seed):
                 ("c16-sl-top", dict(Stateful=False, NonceMode="top", MaxSend=1, Depth=3, BadBudget=0, SetBudget=0)),
                 ("c16-sl-rekey", dict(Stateful=False, MaxSend=1, Depth=3, BadBudget=0, SetBudget=0, RekeyBudget=1, SmallBufs=False)),
                 ("c16-sl-ow", dict(Stateful=False, OneWayT=True, MaxSend=1, Depth=2, BadBudget=0, SetBudget=0, SmallBufs=False)),
-                ("c16-sl-ring", dict(Stateful=False, MaxSend=1, Depth=2, BadBudget=0, SetBudget=0, SmallBufs=False,
+                ("c16-sl-ring", dict(Stateful=False, MaxSend=1, Depth=2, BadBudget=0, SetBudget=0, SmallBufs=True,
                                      backends="mix-sample"))]
     else:
         cfgs = [("c16-sl", dict(Stateful=False, MaxSend=2, Depth=4, BadBudget=1, SetBudget=0, SmallBufs=True, BigBudget=1)),
                 ("c16-sl-top", dict(Stateful=False, NonceMode="top", MaxSend=2, Depth=4, BadBudget=0, SetBudget=0)),
-                ("c16-sl-ring", dict(Stateful=False, MaxSend=2, Depth=3, BadBudget=0, SetBudget=0, SmallBufs=False,
+                ("c16-sl-ring", dict(Stateful=False, MaxSend=2, Depth=3, BadBudget=0, SetBudget=0, SmallBufs=True,
                                      backends="mix")),
                 ("c16-sl-ow", dict(Stateful=False, OneWayT=True, MaxSend=2, Depth=4, BadBudget=0, SetBudget=0, BigBudget=1))]
     tl, rl = tlegs("C16", seed, cfgs, per_scn=1 if tier == "quick" else 2)
